@@ -39,7 +39,18 @@ Case gen_C19(uint64_t seed, long run, const GenCfg &g, const char *inflight) {
         o.align = r.chance(0.5) ? 4 : 0; o.wsgarbage = wsg;
     };
     std::vector<Op> ops;
-    { Op nw; nw.kind = "new"; nw.slot = 0; nw.mat = 0; double u = r.unit(); nw.reader = u < 0.15 ? "hb" : (u < 0.28 && !cplx) ? "mm" : u < 0.38 ? "rb" : u < 0.48 ? "triple" : ""; /* [cz]readMM reject their own "complex" header (content of C16, not claimed) */ nw.storage = (nw.reader.empty() && r.chance(0.2)) ? 1 : 0; ops.push_back(nw); }
+    { Op nw; nw.kind = "new"; nw.slot = 0; nw.mat = 0; double u = r.unit(); nw.reader = u < 0.15 ? "hb" : (u < 0.28 && !cplx) ? "mm" : u < 0.38 ? "rb" : u < 0.48 ? "triple" : ""; /* [cz]readMM reject their own "complex" header (content of C16, not claimed) */ nw.storage = (nw.reader.empty() && r.chance(0.2)) ? 1 : 0;
+      // file encodings drawn from their own stream (the main stream, and with it the rest of the lifecycle, is unaffected)
+      Rng rf(mix3(seed, 0x1916, (uint64_t)run));
+      if (!nw.reader.empty()) {
+          nw.rfmt = (int)rf.below(32);
+          if (nw.reader == "mm" || nw.reader == "triple") nw.rbase0 = rf.chance(0.25) ? 1 : 0;
+          if (nw.reader != "triple" && rf.chance(0.4)) { // symmetric storage: the reader expands the lower triangle
+              static const double dropp[] = {0.0, 0.3, 1.0};
+              t.mats[0] = symmetrize(rf, t.mats[0], dropp[rf.below(3)]); nw.rsym = 1;
+          }
+      }
+      ops.push_back(nw); }
     bool slot1 = false; int live_handles = 0;
     int items = r.range(2, g.thorough ? 12 : 8);
     for (int it = 0; it < items; it++) {
